@@ -229,13 +229,28 @@ func tail(path string, n int) string {
 	return string(b)
 }
 
+// supervise runs the check; when a run produced violations none of which reproduced from its replay
+// file (they depended on what concurrent workers or earlier cases had left in process-wide state -
+// pooled buffers, package-level scratch) and nothing else was reported, the check is run a second
+// time with ONE worker: that execution is a single deterministic sequence of cases, so whatever
+// it reports reproduces, and phases that the storm of irreproducible cases cut short are reached.
 func supervise(id, tier string) int {
+	exit, reported, flaky := superviseOnce(id, tier, "")
+	if exit == 0 && reported == 0 && flaky > 0 {
+		fmt.Fprintf(os.Stderr, "[%s] %d violation key(s) did not reproduce and nothing else was reported: second pass with one worker\n", id, flaky)
+		exit, _, _ = superviseOnce(id, tier, "1")
+	}
+	return exit
+}
+
+func superviseOnce(id, tier, workers string) (int, int, int) {
 	ch := engine.Lookup(id)
 	if ch == nil {
 		fmt.Fprintln(os.Stderr, "unknown check", id)
-		return 2
+		return 2, 0, 0
 	}
 	start := time.Now()
+	flaky := 0
 	build := filepath.Join(root, ".build")
 	os.MkdirAll(build, 0o755)
 	os.MkdirAll(filepath.Join(root, "evidence"), 0o755)
@@ -248,6 +263,9 @@ func supervise(id, tier string) int {
 	cmd.Stdout = os.Stderr
 	cmd.Stderr = errF
 	cmd.Env = append(os.Environ(), "GOTRACEBACK=single")
+	if workers != "" {
+		cmd.Env = append(cmd.Env, "VERIF_WORKERS="+workers)
+	}
 	runErr := cmd.Run()
 	errF.Close()
 	if t := tail(errPath, 4000); t != "" {
@@ -329,6 +347,7 @@ func supervise(id, tier string) int {
 			fmt.Fprintf(os.Stderr, "[%s] HARNESS-FLAKY (reproduced %d/%d, not reported): %s %s\n", id, ok, tries, v.Key, v.Desc)
 			res.Warnings = append(res.Warnings, "flaky violation not reported: "+v.Key)
 			res.Capped = true
+			flaky++
 		}
 	}
 	writeEvidence(ch, &res, tier, nViol, time.Since(start).Seconds())
@@ -337,7 +356,7 @@ func supervise(id, tier string) int {
 	}
 	fmt.Fprintf(os.Stderr, "[%s] tier=%s evaluations=%d distinct=%d violations=%d exhaustive=%v wall=%.1fs\n",
 		id, tier, res.Counters["evaluations"], distinct(&res), nViol, !res.Capped, time.Since(start).Seconds())
-	return exit
+	return exit, nViol, flaky
 }
 
 func distinct(res *engine.Result) int64 {
